@@ -502,6 +502,9 @@ pub fn slice_events(input: &str, output: &str) -> Value {
         }));
         let ev = match r {
             Ok((wt, bt, wi, bi, mtg, sw, sb, aw, ab)) => json!({"ev": "slice", "line": line, "toks": toks,
+                // exact decimal strings for values beyond 32 bits (checked with unbounded integers by Apalache)
+                "exact": {"wtime": wt.to_string(), "btime": bt.to_string(), "winc": wi.to_string(), "binc": bi.to_string(),
+                          "slice_w": sw.to_string(), "slice_b": sb.to_string(), "slice_w_alt": aw.to_string(), "slice_b_alt": ab.to_string()},
                 "parsed": {"wtime": ci(wt), "btime": ci(bt), "winc": ci(wi), "binc": ci(bi), "movestogo": mtg.unwrap_or(0)},
                 "slice_w": clamp(sw), "slice_b": clamp(sb), "slice_w_alt": clamp(aw), "slice_b_alt": clamp(ab)}),
             Err(_) => json!({"ev": "slice", "line": line, "toks": toks, "panic": true}),
